@@ -9,8 +9,8 @@ LEVEL = 'exploration'
 BUDGET = {'quick': 10000, 'thorough': 150000}
 RULE = ('Model-based histories: Hypothesis draws op-lists (<=25 ops: append, extend, +=, insert, '
         'setitem, delitem int/slice, pop, getitem int/slice/list/ndarray, by_label, set_order) over a '
-        'pool of 8 compatible frames (varying tchans/t_start, one of opposite orientation with equal '
-        'fmin), 4 incompatible frames (df/dt/fchans/fmin) and 4 non-frames; every op is applied to the '
+        'pool of 8 compatible frames (varying tchans/t_start, two value-equal twins, one of opposite orientation with equal '
+        'fmin), 7 incompatible frames (df/dt/fchans/fmin, three of them off by a single ulp) and 4 non-frames; a second cadence may be constructed FROM the cadence and must stay independent; every op is applied to the '
         'cadence and to a plain Python list model in lock-step and identity/order/labels/aggregates are '
         'compared after every op. Non-trivial: >=3 mutating ops including a rejected addition or a '
         'mid-list insertion; distinct by hash of the history.')
@@ -19,9 +19,9 @@ ASSUMPTIONS = ['tuples are not generated as selectors (numpy reads them as multi
                'slice assignment is not generated (property speaks of item assignment)']
 REQUIRED_CLASSES = ['ordered', 'plain', 'op=insert', 'op=setitem', 'op=delitem', 'op=pop', 'op=getitem_list',
                     'op=getitem_slice', 'op=extend', 'op=by_label', 'rejected_nonframe', 'rejected_incompatible',
-                    'mid_insert', 'insert_out_of_range']
+                    'mid_insert', 'insert_out_of_range', 'op=clone', 'op=swap', 'twin_frames_both_members']
 
-N_COMPAT, N_INCOMPAT, N_NON = 8, 4, 4
+N_COMPAT, N_INCOMPAT, N_NON = 8, 7, 4
 POOL = N_COMPAT + N_INCOMPAT + N_NON
 
 idx = st.one_of(st.integers(-4, 4), st.integers(-9, 9))
@@ -47,6 +47,7 @@ op_strategy = st.one_of(
     st.fixed_dictionaries({'op': st.just('getitem_list'), 'kind': st.sampled_from(['list', 'ndarray']),
                            'ii': st.lists(idx, min_size=1, max_size=5)}),
     st.fixed_dictionaries({'op': st.just('by_label'), 'label': st.sampled_from(list('ABCDX'))}),
+    st.fixed_dictionaries({'op': st.sampled_from(['clone', 'swap'])}),
     st.fixed_dictionaries({'op': st.just('set_order'),
                            'order': st.text(alphabet='ABCD', min_size=1, max_size=12)}),
 )
@@ -66,7 +67,9 @@ def build_pool(stg):
     base = dict(fchans=4, df=2.0, dt=1.5, fch1=1e9)
     pool = []
     for k in range(N_COMPAT - 1):
-        pool.append(stg.Frame(tchans=1 + k % 3, ascending=False, t_start=1000.0 + 17.0 * k, **base))
+        # frames 0 and 1 are twins: equal in every parameter, start time, name and data, but distinct objects
+        kk = 0 if k == 1 else k
+        pool.append(stg.Frame(tchans=1 + kk % 3, ascending=False, t_start=1000.0 + 17.0 * kk, **base))
     # opposite orientation, same band: fmin must be *equal* for the guard
     desc = pool[0]
     pool.append(stg.Frame(fchans=4, tchans=2, df=2.0, dt=1.5, fch1=float(desc.fmin), ascending=True,
@@ -75,6 +78,10 @@ def build_pool(stg):
     pool.append(stg.Frame(fchans=4, tchans=2, df=2.0, dt=2.5, fch1=1e9, t_start=0.0))
     pool.append(stg.Frame(fchans=5, tchans=2, df=2.0, dt=1.5, fch1=1e9, t_start=0.0))
     pool.append(stg.Frame(fchans=4, tchans=2, df=2.0, dt=1.5, fch1=1e9 + 2.0, t_start=0.0))
+    # differences of a single ulp are differences
+    pool.append(stg.Frame(fchans=4, tchans=2, df=float(np.nextafter(2.0, 3.0)), dt=1.5, fch1=1e9, t_start=0.0))
+    pool.append(stg.Frame(fchans=4, tchans=2, df=2.0, dt=float(np.nextafter(1.5, 2.0)), fch1=1e9, t_start=0.0))
+    pool.append(stg.Frame(fchans=4, tchans=2, df=2.0, dt=1.5, fch1=float(np.nextafter(float(desc.fmin), 2e9)), ascending=True, t_start=0.0))
     pool.extend([None, 3, 'frame', np.zeros((2, 4))])
     assert len(pool) == POOL
     return pool
@@ -135,7 +142,16 @@ def run_case(case, ctx):
         model.insert(pos, v)
         return 'ok'
 
+    other = {'cad': None, 'model': None, 'order': None}
+
+    def check_other(tag):
+        # a cadence constructed from this one is a list of its own
+        if other['cad'] is not None and [id(f) for f in other['cad'].frames] != [id(f) for f in other['model']]:
+            obs.fail(f'constructed_from_cadence_shares_state:{tag}', f'len {len(other["cad"].frames)} vs {len(other["model"])}')
+            other['cad'] = None
+
     def check_state(tag, cad):
+        check_other(tag)
         got = [id(f) for f in cad.frames]
         if got != [id(f) for f in model] or len(cad) != len(model):
             obs.fail(f'identity_order:{tag}', f'len {len(cad)} vs model {len(model)}')
@@ -349,6 +365,23 @@ def run_case(case, ctx):
                     obs.fail('by_label', f'{len(got)} vs {len(want)}')
                 if want:
                     obs.cls('by_label_nonempty')
+        elif name == 'clone':
+            # build a second cadence FROM the cadence (not from a list); it must be independent
+            obs.cls('op=clone')
+            if ordered:
+                raised, oc = attempt('clone', lambda: stg.OrderedCadence(frame_list=cad, order=st_['order']), True)
+            else:
+                raised, oc = attempt('clone', lambda: stg.Cadence(frame_list=cad), True)
+            if not raised:
+                other['cad'], other['model'], other['order'] = oc, list(model), st_['order']
+                if [id(f) for f in oc.frames] != [id(f) for f in model]:
+                    obs.fail('clone_members', '')
+        elif name == 'swap':
+            if other['cad'] is not None:
+                cad, other['cad'] = other['cad'], cad
+                model, other['model'] = other['model'], model
+                st_['order'], other['order'] = other['order'], st_['order']
+                obs.cls('op=swap')
         elif name == 'set_order':
             if not ordered or len(op['order']) < len(model):
                 continue
@@ -357,6 +390,8 @@ def run_case(case, ctx):
                 labels[id(f)] = op['order'][p]
             mutating += 1
             attempt('set_order', lambda: cad.set_order(op['order']), True)
+        if sum(1 for f in model if f is pool[0]) and sum(1 for f in model if f is pool[1]):
+            obs.cls('twin_frames_both_members')
         if not check_state(tag, cad):
             break
     obs.nontrivial = mutating >= 3 and interesting
